@@ -38,9 +38,28 @@ func (m *Machine) toI53(x *FloatV) *FloatV {
 		case v == math.Trunc(v) && math.Abs(v) <= 1<<53:
 			return &FloatV{I: m.i64(int64(v))}
 		}
+		if math.Abs(v) < 1<<53 {
+			// non-integer constant: only ordered against / copied among the integer-valued domain (no arithmetic)
+			return &FloatV{I: m.i64(int64(math.Floor(v))), Frac: m.F.True()}
+		}
 		panic(unsupported("non-integer float constant meets a symbolic float in int53 mode"))
 	}
 	panic(unsupported("float without int53 representation"))
+}
+
+func (m *Machine) fracOf(x *FloatV) *sym.Term {
+	if x.Frac == nil {
+		return m.F.False()
+	}
+	return x.Frac
+}
+
+func (m *Machine) noFrac(x *FloatV, what string) {
+	if x.Frac != nil && !x.Frac.IsFalse() {
+		if x.Frac.IsTrue() || m.feasible(x.Frac) != solver.Unsat {
+			panic(unsupported(what + " on a non-integer float in int53 mode"))
+		}
+	}
 }
 
 func (m *Machine) nanOf(x *FloatV) *sym.Term {
@@ -55,6 +74,14 @@ func (m *Machine) i53Range(r *FloatV) {
 	if m.inPrefix() || r.I.IsConst() {
 		return
 	}
+	// the path condition only grows: a range fact proven once stays valid on this path
+	if m.i53ok == nil {
+		m.i53ok = map[int]bool{}
+	}
+	if m.i53ok[r.I.ID] {
+		return
+	}
+	defer func() { m.i53ok[r.I.ID] = true }()
 	lim := int64(1) << 53
 	ok := m.F.And(m.F.Bin(sym.OSLE, m.i64(-lim), r.I), m.F.Bin(sym.OSLE, r.I, m.i64(lim)))
 	bad := m.F.And(m.F.Not(m.nanOf(r)), m.F.Not(ok))
@@ -98,6 +125,8 @@ func (m *Machine) floatArith(op token.Token, x, y *FloatV) Value {
 	switch m.floatMode() {
 	case "int53":
 		a, b := m.toI53(x), m.toI53(y)
+		m.noFrac(a, "arithmetic")
+		m.noFrac(b, "arithmetic")
 		var r *FloatV
 		switch op {
 		case token.ADD:
@@ -147,13 +176,16 @@ func (m *Machine) floatCmp(op string, x, y *FloatV) *sym.Term {
 	case "int53":
 		a, b := m.toI53(x), m.toI53(y)
 		ok := m.F.And(m.F.Not(m.nanOf(a)), m.F.Not(m.nanOf(b)))
+		fa, fb := m.fracOf(a), m.fracOf(b)
+		eq := m.F.And(m.F.Eq(a.I, b.I), m.F.Eq(fa, fb))
+		lt := m.F.Or(m.F.Bin(sym.OSLT, a.I, b.I), m.F.And(m.F.Eq(a.I, b.I), m.F.And(m.F.Not(fa), fb)))
 		switch op {
 		case "==":
-			return m.F.And(ok, m.F.Eq(a.I, b.I))
+			return m.F.And(ok, eq)
 		case "<":
-			return m.F.And(ok, m.F.Bin(sym.OSLT, a.I, b.I))
+			return m.F.And(ok, lt)
 		default:
-			return m.F.And(ok, m.F.Bin(sym.OSLE, a.I, b.I))
+			return m.F.And(ok, m.F.Or(lt, eq))
 		}
 	case "ieee":
 		a, b := m.asFP(x), m.asFP(y)
@@ -176,6 +208,7 @@ func (m *Machine) floatNeg(x *FloatV) Value {
 	switch m.floatMode() {
 	case "int53":
 		a := m.toI53(x)
+		m.noFrac(a, "negation")
 		return &FloatV{I: m.F.Neg(a.I), NaN: a.NaN}
 	case "ieee":
 		return &FloatV{FP: m.F.FPUn(sym.OFPNeg, sym.FP64, m.asFP(x))}
@@ -200,6 +233,7 @@ func (m *Machine) floatToInt(x *FloatV, w int, signed bool) Value {
 	switch m.floatMode() {
 	case "int53":
 		a := m.toI53(x)
+		m.noFrac(a, "conversion to integer")
 		return m.toWidth(a.I, w, true)
 	case "ieee":
 		if signed {
@@ -258,14 +292,15 @@ func (m *Machine) floatMinMax(isMin bool, x, y *FloatV) Value {
 	}
 	if m.floatMode() == "int53" {
 		a, b := m.toI53(x), m.toI53(y)
-		lt := m.F.Bin(sym.OSLT, b.I, a.I)
-		var i *sym.Term
+		fa, fb := m.fracOf(a), m.fracOf(b)
+		lt := m.F.Or(m.F.Bin(sym.OSLT, b.I, a.I), m.F.And(m.F.Eq(a.I, b.I), m.F.And(m.F.Not(fb), fa)))
+		var i, fr *sym.Term
 		if isMin {
-			i = m.F.Ite(lt, b.I, a.I)
+			i, fr = m.F.Ite(lt, b.I, a.I), m.F.Ite(lt, fb, fa)
 		} else {
-			i = m.F.Ite(lt, a.I, b.I)
+			i, fr = m.F.Ite(lt, a.I, b.I), m.F.Ite(lt, fa, fb)
 		}
-		return &FloatV{I: i, NaN: m.F.Or(m.nanOf(a), m.nanOf(b))}
+		return &FloatV{I: i, Frac: fr, NaN: m.F.Or(m.nanOf(a), m.nanOf(b))}
 	}
 	panic(unsupported("min/max on symbolic floats"))
 }
